@@ -38,6 +38,7 @@ type c10 struct {
 	files      []*MFile
 	mode       string
 	allowedDup map[string]int // per statement: at how many crashes it was the one in flight
+	squashed   []*MFile       // files older than the checkpoint the directory starts from: never run
 }
 
 const propC10 = "C10"
@@ -78,6 +79,12 @@ func (c *c10) untouched(d *observe.Dump, f *MFile) bool {
 func (c *c10) check(d *observe.Dump, when string, target []*MFile, afterCrash bool) {
 	r := c.r
 	sig := func(s string) string { return s + "/" + c.mode }
+	for _, f := range c.squashed {
+		if !c.untouched(d, f) {
+			r.Fail(propC10, "checkpoint", sig("squashed-file-run"), "%s: %s is older than the checkpoint the first run started from, yet it has effects or a revision: effects %s revisions [%s]", when, f.Name, EffectVector(d, append(append([]*MFile(nil), c.squashed...), c.files...)), d.RevDigest())
+			return
+		}
+	}
 	for i, f := range c.files {
 		lead, prefixOK := c.lead(d, f)
 		rev, hasRev := d.Rev(f.Version)
@@ -299,10 +306,25 @@ func C10(r *simkit.Run) {
 			}
 		}
 	}
-	w.WriteDir(files)
-	c := &c10{r: r, w: w, files: files, mode: mode, allowedDup: map[string]int{}}
-	r.Sample("mode=%s dir: %s", mode, Describe(files))
-	r.Logf("mode=%s dir=%s", mode, Describe(files))
+	// Sometimes the directory starts from a checkpoint that squashes one or two older files: the
+	// first run on the empty database starts at the checkpoint, and so does every resumed run.
+	var squashed []*MFile
+	if t.Chance("starts-from-checkpoint", 1, 4) {
+		files[0].Checkpoint = true
+		for i, n := 0, t.Range("squashed-files", 1, 2); i < n; i++ {
+			idx := -(n - i)
+			tag := fmt.Sprintf("p%d", i+1)
+			f := &MFile{Idx: idx, Version: Version(idx), Name: fmt.Sprintf("%s_%s.sql", Version(idx), tag)}
+			f.Stmts = append(f.Stmts, Stmt{ID: tag + ".s0", Kind: KDDL, SQL: fmt.Sprintf("CREATE TABLE IF NOT EXISTS %s (x int)", ddlTable(tag+".s0"))})
+			f.Stmts = append(f.Stmts, Stmt{ID: tag + ".s1", Kind: KDDL, SQL: fmt.Sprintf("CREATE TABLE IF NOT EXISTS %s (x int)", ddlTable(tag+".s1"))})
+			squashed = append(squashed, f)
+		}
+		r.Probe("directory-starts-from-checkpoint")
+	}
+	w.WriteDir(append(append([]*MFile(nil), squashed...), files...))
+	c := &c10{r: r, w: w, files: files, mode: mode, allowedDup: map[string]int{}, squashed: squashed}
+	r.Sample("mode=%s dir: %s", mode, Describe(append(append([]*MFile(nil), squashed...), files...)))
+	r.Logf("mode=%s dir=%s", mode, Describe(append(append([]*MFile(nil), squashed...), files...)))
 	apply := func(env []string, n int) CmdResult {
 		args := []string{"migrate", "apply"}
 		if n > 0 {
